@@ -22,22 +22,43 @@ def perLimiter (s : S) (f : Nat → String) : String := ",".intercalate ((List.r
 
 def glue (ws : List String) : String := " ".intercalate (ws.filter (fun w => !w.isEmpty))
 
-def step (st : Option S) (line : String) : Option S × String :=
+/-- Negative capacities (`New(-1)`, `SetCap(math.MinInt)`) are run through the model by the reduction
+    `capacity ↦ max capacity 0`: every decision of the code compares an amount ≥ 1 with `capacity - used` or with
+    `capacity`, and both are < 1 for a negative capacity exactly as for capacity 0.  Only `Cap()` shows the raw value, so
+    the driver keeps the raw capacities (in creation order) next to the model state. -/
+structure DS where
+  s : S
+  raw : List Int
+
+def DS.rawOf (d : DS) (x : Nat) : Int := d.raw.getD x 0
+
+def DS.setRaw (d : DS) (l : Nat) (c : Int) : DS := { d with raw := d.raw.set l c }
+
+/-- `Cap(apply)`: the model's `capOf` whenever no negative capacity is involved, the same minimum over the raw values
+    otherwise -/
+def DS.capStr (d : DS) (l : Nat) (ap : Bool) : String :=
+  if (d.s.chain l).all (fun x => decide (0 ≤ d.rawOf x)) then toString (capOf d.s l ap)
+  else if ap then toString ((d.s.chain l).foldl (fun m x => min m (d.rawOf x)) (d.rawOf l))
+  else toString (d.rawOf l)
+
+def step (st : Option DS) (line : String) : Option DS × String :=
   match words line, st with
   | ["reset", c], _ =>
-    match c.toNat? with
-    | some c => (some (init c), "reset")
+    match c.toInt? with
+    | some c => (some ⟨init c.toNat, [c]⟩, "reset")
     | none => (st, "bad-op")
   | _, none => (none, "bad-op")
-  | ["new", p, c], some s =>
-    match p.toNat?, c.toNat? with
+  | ["new", p, c], some d =>
+    let s := d.s
+    match p.toNat?, c.toInt? with
     | some p, some c =>
       if p < s.n then
-        let s' := exec s (.newChild p c)
-        if s'.n = s.n then (some s', "nil") else (some s', "ok " ++ toString s.n)
+        let s' := exec s (.newChild p c.toNat)
+        if s'.n = s.n then (some { d with s := s' }, "nil") else (some ⟨s', d.raw ++ [c]⟩, "ok " ++ toString s.n)
       else (st, "bad-handle")
     | _, _ => (st, "bad-op")
-  | ["use", l, a], some s =>
+  | ["use", l, a], some d =>
+    let s := d.s
     match l.toNat?, a.toInt? with
     | some l, some a =>
       if l < s.n then
@@ -45,38 +66,41 @@ def step (st : Option S) (line : String) : Option S × String :=
         let out := match s'.answered.find? (fun x => x.1 == s.nextReq) with
           | some x => ansStr x.2
           | none => "pending"
-        (some s', "r" ++ toString s.nextReq ++ " " ++ out)
+        (some { d with s := s' }, "r" ++ toString s.nextReq ++ " " ++ out)
       else (st, "bad-handle")
     | _, _ => (st, "bad-op")
-  | ["tick"], some s =>
+  | ["tick"], some d =>
+    let s := d.s
     if s.tpc = .sel then
       let s' := exec s .tick
-      (some s', glue ["tick", newAnswers s s', "last=" ++ perLimiter s' (fun x => toString (s'.last x))])
+      (some { d with s := s' }, glue ["tick", newAnswers s s', "last=" ++ perLimiter s' (fun x => toString (s'.last x))])
     else (st, "no-ticker")
-  | ["close", l], some s =>
+  | ["close", l], some d =>
+    let s := d.s
     match l.toNat? with
     | some l =>
       if l < s.n then
         let s' := exec s (.close l)
-        (some s', glue ["close", newAnswers s s',
+        (some { d with s := s' }, glue ["close", newAnswers s s',
                         "closed=" ++ perLimiter s' (fun x => if s'.closed x then "1" else "0")])
       else (st, "bad-handle")
     | none => (st, "bad-op")
-  | ["cap", l, ap], some s =>
+  | ["cap", l, ap], some d =>
     match l.toNat? with
-    | some l => if l < s.n then (st, toString (capOf s l (ap == "1"))) else (st, "bad-handle")
+    | some l => if l < d.s.n then (st, d.capStr l (ap == "1")) else (st, "bad-handle")
     | none => (st, "bad-op")
-  | ["setcap", l, c], some s =>
-    match l.toNat?, c.toNat? with
-    | some l, some c => if l < s.n then (some (exec s (.setCap l c)), "ok") else (st, "bad-handle")
+  | ["setcap", l, c], some d =>
+    match l.toNat?, c.toInt? with
+    | some l, some c =>
+      if l < d.s.n then (some ((DS.setRaw { d with s := exec d.s (.setCap l c.toNat) } l c)), "ok") else (st, "bad-handle")
     | _, _ => (st, "bad-op")
-  | ["last", l], some s =>
+  | ["last", l], some d =>
     match l.toNat? with
-    | some l => if l < s.n then (st, toString (s.last l)) else (st, "bad-handle")
+    | some l => if l < d.s.n then (st, toString (d.s.last l)) else (st, "bad-handle")
     | none => (st, "bad-op")
-  | ["closed", l], some s =>
+  | ["closed", l], some d =>
     match l.toNat? with
-    | some l => if l < s.n then (st, toString (s.closed l)) else (st, "bad-handle")
+    | some l => if l < d.s.n then (st, toString (d.s.closed l)) else (st, "bad-handle")
     | none => (st, "bad-op")
   | _, _ => (st, "bad-op")
 
